@@ -260,17 +260,17 @@ func c16(run *ev.Run, tier string) {
 		{"rpm.signature.key_id", false, func(c *nfpm.Config, v string) { c.RPM.Signature.KeyID = &v }, func(c *nfpm.Config) []string { return one(ps(c.RPM.Signature.KeyID)) }},
 		{"deb.signature.key_id", false, func(c *nfpm.Config, v string) { c.Deb.Signature.KeyID = &v }, func(c *nfpm.Config) []string { return one(ps(c.Deb.Signature.KeyID)) }},
 		{"deb.fields.X-Field", false, func(c *nfpm.Config, v string) { c.Deb.Fields = map[string]string{"X-Field": v} }, func(c *nfpm.Config) []string { return one(c.Deb.Fields["X-Field"]) }},
-		{"replaces", true, func(c *nfpm.Config, v string) { c.Replaces = []string{"first", v, "last"} }, func(c *nfpm.Config) []string { return c.Replaces }},
-		{"provides", true, func(c *nfpm.Config, v string) { c.Provides = []string{"first", v, "last"} }, func(c *nfpm.Config) []string { return c.Provides }},
-		{"depends", true, func(c *nfpm.Config, v string) { c.Depends = []string{"first", v, "last"} }, func(c *nfpm.Config) []string { return c.Depends }},
-		{"recommends", true, func(c *nfpm.Config, v string) { c.Recommends = []string{"first", v, "last"} }, func(c *nfpm.Config) []string { return c.Recommends }},
-		{"suggests", true, func(c *nfpm.Config, v string) { c.Suggests = []string{"first", v, "last"} }, func(c *nfpm.Config) []string { return c.Suggests }},
-		{"conflicts", true, func(c *nfpm.Config, v string) { c.Conflicts = []string{"first", v, "last"} }, func(c *nfpm.Config) []string { return c.Conflicts }},
+		{"replaces", true, func(c *nfpm.Config, v string) { c.Replaces = []string{"first", v, "middle", v, "next-to-last", "last"} }, func(c *nfpm.Config) []string { return c.Replaces }},
+		{"provides", true, func(c *nfpm.Config, v string) { c.Provides = []string{"first", v, "middle", v, "next-to-last", "last"} }, func(c *nfpm.Config) []string { return c.Provides }},
+		{"depends", true, func(c *nfpm.Config, v string) { c.Depends = []string{"first", v, "middle", v, "next-to-last", "last"} }, func(c *nfpm.Config) []string { return c.Depends }},
+		{"recommends", true, func(c *nfpm.Config, v string) { c.Recommends = []string{"first", v, "middle", v, "next-to-last", "last"} }, func(c *nfpm.Config) []string { return c.Recommends }},
+		{"suggests", true, func(c *nfpm.Config, v string) { c.Suggests = []string{"first", v, "middle", v, "next-to-last", "last"} }, func(c *nfpm.Config) []string { return c.Suggests }},
+		{"conflicts", true, func(c *nfpm.Config, v string) { c.Conflicts = []string{"first", v, "middle", v, "next-to-last", "last"} }, func(c *nfpm.Config) []string { return c.Conflicts }},
 		{"overrides.deb.depends", true, func(c *nfpm.Config, v string) {
-			c.Overrides = map[string]*nfpm.Overridables{"deb": {Depends: []string{"first", v, "last"}}}
+			c.Overrides = map[string]*nfpm.Overridables{"deb": {Depends: []string{"first", v, "middle", v, "next-to-last", "last"}}}
 		}, func(c *nfpm.Config) []string { return c.Overrides["deb"].Depends }},
 		{"overrides.rpm.conflicts", true, func(c *nfpm.Config, v string) {
-			c.Overrides = map[string]*nfpm.Overridables{"rpm": {Conflicts: []string{"first", v, "last"}}}
+			c.Overrides = map[string]*nfpm.Overridables{"rpm": {Conflicts: []string{"first", v, "middle", v, "next-to-last", "last"}}}
 		}, func(c *nfpm.Config) []string { return c.Overrides["rpm"].Conflicts }},
 	}
 	// version is expandable too; it is checked apart because the schema rewrites it
@@ -345,11 +345,17 @@ func c16(run *ev.Run, tier string) {
 				got := fd.get(&cfg)
 				var want []string
 				if fd.list {
+					// (the item occurs twice, each time followed by items that survive: the
+					// order of the survivors is part of the expectation)
 					want = []string{"first"}
 					if keep {
 						want = append(want, wantV)
 					}
-					want = append(want, "last")
+					want = append(want, "middle")
+					if keep {
+						want = append(want, wantV)
+					}
+					want = append(want, "next-to-last", "last")
 				} else {
 					want = []string{wantV}
 					if fd.name == "description" && wantV == "" {
